@@ -131,7 +131,7 @@ inductive Tok where
   | data (bs : List UInt8)
   | str (s : List Char)
   | atom (s : List Char)
-  deriving Repr, BEq
+  deriving Repr, BEq, DecidableEq
 
 /-- plist.rs:146 -/
 def skipWs (s : List Char) : List Char := s.dropWhile isWs
@@ -452,9 +452,12 @@ def bareOk (s : List Char) : Bool := !s.isEmpty && s.all isAlnum && !looksNumeri
 /-- may a dictionary *key* be written without quotes?  (keys are never read as numbers) -/
 def bareKeyOk (s : List Char) : Bool := !s.isEmpty && s.all isAlnum
 
-def natDigits (n : Nat) : List Char :=
-  if n < 10 then [digitCh n] else natDigits (n / 10) ++ [digitCh (n % 10)]
-decreasing_by omega
+/-- decimal digits, most significant first (`fuel ≥ n` is plenty) -/
+def natDigitsAux : Nat → Nat → List Char
+  | 0, n => [digitCh (n % 10)]
+  | f + 1, n => if n < 10 then [digitCh n] else natDigitsAux f (n / 10) ++ [digitCh (n % 10)]
+
+def natDigits (n : Nat) : List Char := natDigitsAux n n
 
 def intText (i : Int) : List Char :=
   if i < 0 then '-' :: natDigits i.natAbs else natDigits i.natAbs
@@ -496,29 +499,6 @@ end
 /-- the text of `v` in style `st` (trailing whitespace from the root's `post`) -/
 def print (v : PVal) (st : Style) : List Char := printVal v st ++ ws (st []).post
 
-/-! ## key order -/
-
-mutual
-/-- `KeyPerm v w`: `w` is `v` with the entries of dictionaries, at any depth, reordered -/
-inductive KeyPerm : PVal → PVal → Prop
-  | str (s) : KeyPerm (.str s) (.str s)
-  | int (i) : KeyPerm (.int i) (.int i)
-  | flt (t) : KeyPerm (.flt t) (.flt t)
-  | data (b) : KeyPerm (.data b) (.data b)
-  | arr {xs ys} : KeyPermL xs ys → KeyPerm (.arr xs) (.arr ys)
-  | dict {kvs kws} : KeyPermE kvs kws → KeyPerm (.dict kvs) (.dict kws)
-inductive KeyPermL : List PVal → List PVal → Prop
-  | nil : KeyPermL [] []
-  | cons {x y xs ys} : KeyPerm x y → KeyPermL xs ys → KeyPermL (x :: xs) (y :: ys)
-/-- a permutation with related values (generated like `List.Perm`) -/
-inductive KeyPermE : List (Key × PVal) → List (Key × PVal) → Prop
-  | nil : KeyPermE [] []
-  | cons {k x y xs ys} : KeyPerm x y → KeyPermE xs ys → KeyPermE ((k, x) :: xs) ((k, y) :: ys)
-  | swap {k₁ k₂ x₁ x₂ y₁ y₂ xs ys} : KeyPerm x₁ y₁ → KeyPerm x₂ y₂ → KeyPermE xs ys →
-      KeyPermE ((k₁, x₁) :: (k₂, x₂) :: xs) ((k₂, y₂) :: (k₁, y₁) :: ys)
-  | trans {a b c} : KeyPermE a b → KeyPermE b c → KeyPermE a c
-end
-
 /-! ## `.glyphspackage` at the value level (glyphs-reader/src/font.rs:2254 `load_package`) -/
 
 def lookupKV (k : Key) : List (Key × PVal) → Option PVal
@@ -548,13 +528,20 @@ structure Package where
   /-- the `glyphs/*.glyph` files, in directory (= arbitrary) order -/
   glyphFiles : List PVal
 
+def namesOf : List PVal → Option (List Key)
+  | [] => some []
+  | g :: gs =>
+    match glyphName? g, namesOf gs with
+    | some n, some ns => some (n :: ns)
+    | _, _ => none
+
 /-- split a single-file value the way Glyphs.app writes a package -/
 def split (v : PVal) : Option Package :=
   match v with
   | .dict kvs =>
     match lookupKV kGlyphs kvs with
     | some (.arr gs) =>
-      match gs.mapM glyphName? with
+      match namesOf gs with
       | some names => some ⟨.dict (eraseKV kGlyphs kvs), some (.arr (names.map .str)), gs⟩
       | none => none
     | _ => none
@@ -594,5 +581,114 @@ def reassemble (p : Package) : Option PVal :=
     | some (gs, restm) => some (.dict (insertKV kGlyphs (.arr (gs ++ restm.map (·.2))) info))
     | none => none
   | _, _ => none
+
+/-! ## the `unicode` entry of a glyph, as the *typed* reader sees it
+    (glyphs-reader/src/font.rs:3798 `preprocess_unparsed_plist`, :1522 `unicode: Option<String>`, :2693) -/
+
+/-- regex `\s` on ASCII -/
+def reWs (c : Char) : Bool := c == ' ' || c == '\t' || c == '\n' || c == '\r' || c.toNat == 11 || c.toNat == 12
+/-- regex `[0-9a-zA-Z,]` -/
+def isValCh (c : Char) : Bool := isDigit c || isUpper c || isLower c || c == ','
+
+def dropLit : List Char → List Char → Option (List Char)
+  | [], s => some s
+  | _ :: _, [] => none
+  | a :: lit, c :: s => if a == c then dropLit lit s else none
+
+/-- one line against `^\s*unicode\s*=\s*[(]?[0-9a-zA-Z,]+[)]?;\s*$`: the text up to and including the
+    whitespace after `=` (`$prefix`), and `$value`.  (The classes are disjoint from what follows them, so
+    greedy matching is exact.) -/
+def matchUnicodeLine (line : List Char) : Option (List Char × List Char) :=
+  match dropLit "unicode".toList (line.dropWhile reWs) with
+  | none => none
+  | some s1 =>
+    match s1.dropWhile reWs with
+    | '=' :: s3 =>
+      let s4 := s3.dropWhile reWs
+      let s5 := match s4 with
+        | '(' :: t => t
+        | t => t
+      let value := s5.takeWhile isValCh
+      let s6 := s5.dropWhile isValCh
+      if value.isEmpty then none else
+      let s7 := match s6 with
+        | ')' :: t => t
+        | t => t
+      match s7 with
+      | ';' :: s8 => if (s8.dropWhile reWs).isEmpty then some (line.take (line.length - s4.length), value) else none
+      | _ => none
+    | _ => none
+
+def splitLinesAux : List Char → List Char → List (List Char)
+  | [], cur => [cur.reverse]
+  | c :: s, cur => if c == '\n' then cur.reverse :: splitLinesAux s [] else splitLinesAux s (c :: cur)
+
+def splitLines (s : List Char) : List (List Char) := splitLinesAux s []
+
+def joinLines : List (List Char) → List Char
+  | [] => []
+  | [l] => l
+  | l :: ls => l ++ '\n' :: joinLines ls
+
+/-- `preprocess_unparsed_plist`: matching lines become `$prefix"$value";` -/
+def preprocessUnicode (text : List Char) : List Char :=
+  joinLines ((splitLines text).map fun line =>
+    match matchUnicodeLine line with
+    | some (pre, value) => pre ++ '"' :: value ++ ['"', ';']
+    | none => line)
+
+/-- `String::parse` (plist.rs:894): a bare word or a quoted string, anything else is an error -/
+def readStringTok (s : List Char) : Option (List Char × List Char) :=
+  match lex s with
+  | some (.atom a, r) => some (a, r)
+  | some (.str t, r) => some (t, r)
+  | _ => none
+
+/-- the raw `unicode` string of a glyph whose dictionary contains the entry text `entry`
+    (`key = value;`); `none` = the source does not load -/
+def typedUnicodeRaw (entry : List Char) : Option (List Char) :=
+  match lex (preprocessUnicode entry) with
+  | some (k, r1) =>
+    match k.asKey with
+    | some key =>
+      if key == "unicode".toList then
+        match expect r1 '=' with
+        | some r2 =>
+          match readStringTok r2 with
+          | some (v, r3) => (expect r3 ';').map fun _ => v
+          | none => none
+        | none => none
+      else none
+    | none => none
+  | none => none
+
+def radixVal (radix : Nat) (c : Char) : Option Nat :=
+  match hexVal c with
+  | some d => if d < radix then some d else none
+  | none => none
+
+/-- `u32::from_str_radix` (an optional `+`, at least one digit, below 2^32) -/
+def parseRadix (radix : Nat) (s : List Char) : Option Nat :=
+  let ds := match s with
+    | '+' :: t => t
+    | t => t
+  if ds.isEmpty then none else
+  match ds.mapM (radixVal radix) with
+  | some vs =>
+    let n := vs.foldl (fun a d => a * radix + d) 0
+    if n < 4294967296 then some n else none
+  | none => none
+
+def splitOn (sep : Char) (s : List Char) : List (List Char) :=
+  let step (c : Char) (acc : List (List Char)) : List (List Char) :=
+    if c == sep then [] :: acc
+    else match acc with
+      | [] => [[c]]
+      | w :: ws => (c :: w) :: ws
+  s.foldr step [[]]
+
+/-- `parse_codepoint_str` (font.rs:2693): `none` = one of the `unwrap`s panics -/
+def codepoints (radix : Nat) (raw : List Char) : Option (List Nat) :=
+  (splitOn ',' raw).mapM (parseRadix radix)
 
 end Fontc.Plist
